@@ -30,7 +30,9 @@ import (
 // cases
 
 type Case struct {
-	Seed string   `json:"seed"`
+	Seed string `json:"seed"`
+	// Mode: "" | "min" | "max" (DiceMinMode / DiceMaxMode): the text explains the result under every mode
+	Mode string   `json:"mode,omitempty"`
 	Vars []VarDef `json:"vars"`
 	Prog *Program `json:"prog"`
 	Tail string   `json:"tail,omitempty"`
@@ -885,7 +887,7 @@ func checkWod(top *termInfo, env *evalEnv, a galigned, listing, where string, mk
 					return mk("listing", "listing:wod-mark", fmt.Sprintf("%s: die %d success mark %v in %q", where, die.v, die.success, listing), fmt.Sprintf("success iff %s %d", map[bool]string{true: ">=", false: "<="}[ge], threshold))
 				}
 			}
-			if okL {
+			if okL && !maxModeNow { // under max mode nothing is rolled again (every die already shows its highest face)
 				if ag := line != 0 && die.v >= line; ag != die.again {
 					return mk("listing", "listing:wod-mark", fmt.Sprintf("%s: die %d re-roll mark %v in %q", where, die.v, die.again, listing), fmt.Sprintf("re-rolled iff >= %d", line))
 				}
@@ -936,6 +938,7 @@ func checkDC(top *termInfo, env *evalEnv, a galigned, listing, where string, mk 
 		points = v
 	}
 	var total int64
+	lastCritical := false
 	for gi, grp := range p.groups {
 		var again int64
 		for _, die := range grp {
@@ -962,8 +965,10 @@ func checkDC(top *termInfo, env *evalEnv, a galigned, listing, where string, mk 
 			if int64(len(p.groups[gi+1])) != again {
 				return mk("listing", "listing:dc-rounds", fmt.Sprintf("%s: round %d has %d criticals but round %d has %d dice in %q", where, gi+1, again, gi+2, len(p.groups[gi+1]), listing), "as many dice as were critical")
 			}
-		} else if again != 0 {
+		} else if again != 0 && !maxModeNow {
 			return mk("listing", "listing:dc-rounds", fmt.Sprintf("%s: the last round still has criticals in %q", where, listing), "a further round")
+		} else if again != 0 {
+			lastCritical = true // max mode: no further round is rolled, the critical round counts as one
 		}
 	}
 	last := p.groups[len(p.groups)-1]
@@ -972,6 +977,9 @@ func checkDC(top *termInfo, env *evalEnv, a galigned, listing, where string, mk 
 		if die.v > mx {
 			mx = die.v
 		}
+	}
+	if lastCritical {
+		mx = 10
 	}
 	if want := 10*int64(len(p.groups)-1) + mx; want != a.val {
 		return mk("listing", "listing:dc-total", fmt.Sprintf("%s: %d critical rounds and a last round with highest die %d in %q give %d", where, len(p.groups)-1, mx, listing, want), a.valStr)
@@ -987,6 +995,9 @@ func checkDC(top *termInfo, env *evalEnv, a galigned, listing, where string, mk 
 
 // ---------------------------------------------------------------------------
 // computed variables: value[name=<process text of the body>=value]
+
+// maxModeNow: the case being judged runs under DiceMaxMode (the listing rules about re-rolls differ there)
+var maxModeNow bool
 
 func checkComputedGroup(g *l2group, a galigned, src string, vars []VarDef, text string, mk failer, info *runInfo) *rt.Failure {
 	name := g.top.node.S
@@ -1112,6 +1123,9 @@ func checkCase(c *Case, s *rt.Section) (*rt.Failure, caseOutcome) {
 		return s.NewFailure(oracle, sig, c, "src "+strconv.Quote(src)+": "+observed, expected)
 	}
 	vm := newVM(c.Seed, c.Vars)
+	vm.Config.DiceMinMode, vm.Config.DiceMaxMode = c.Mode == "min", c.Mode == "max"
+	maxModeNow = c.Mode == "max"
+	defer func() { maxModeNow = false }()
 	var err error
 	if pi := rt.Guard(func() { err = vm.Run(src) }); pi != nil {
 		if c.Tail != "" {
@@ -1124,6 +1138,11 @@ func checkCase(c *Case, s *rt.Section) (*rt.Failure, caseOutcome) {
 		out.discard = "run-error:" + errClass(err.Error())
 		return nil, out
 	}
+	// the host serves other users between the evaluation and the moment it asks for the text: an unrelated (seeded) VM
+	// evaluates a command of its own; result and text of this VM are its own
+	neighbour := &ds.Context{Seed: []byte("neighbour-seed16")}
+	neighbour.Init()
+	_ = rt.Guard(func() { _ = neighbour.Run("d100*1000+7 + 'x'") })
 	out.rest = vm.RestInput
 	if c.Tail == "" {
 		if strings.TrimSpace(vm.RestInput) != "" {
@@ -1378,7 +1397,7 @@ func TestProp(t *testing.T) {
 
 	exprRule := "programs of 1..3 statements (82% one) drawn from: int literals, variables (ASCII, CJK, accented, full-width names bound to ints), + - * in ASCII and full-width spelling, unary signs, parentheses, dice terms of every family (XdY with k/kh/q/kl/dh/dl[n], min/max, 优势/劣势, default sides, chains, Fate, CoC b/p[n], WoD XaYmZkNqM, Double Cross XcYmZ) whose operands are numbers or parenthesised sub-expressions with guaranteed legal ranges (sub-rolls up to 3 deep), blanks/tabs/CR/LF wherever the grammar takes them, ';' or line-break separators, on a VM seeded with 16 drawn bytes; oracle: VM spans = printer spans, text = source with every top-level roll replaced by value[annotation], value = span Ret, annotation = roll text [= dice listing][,sub=value…] with the listing's total/count/faces/marks implied by the operands, de-annotated text re-evaluates to Ret, GetDetailText twice equal and Ret/Attrs/seed/DetailSpans untouched; non-trivial = at least 2 dice terms and at least 1 binary operator; distinct by (source, seed, variables)"
 	run.Check("expr", 40000, 400000, exprRule, func(t *rapid.T, s *rt.Section) {
-		c := &Case{Seed: drawSeed(t), Vars: drawVars(t, false)}
+		c := &Case{Seed: drawSeed(t), Vars: drawVars(t, false), Mode: rapid.SampledFrom([]string{"", "", "", "", "min", "max"}).Draw(t, "mode")}
 		g := newGen(t, c.Vars)
 		g.avoid = s.Avoid
 		depth := 3
@@ -1472,7 +1491,7 @@ func TestProp(t *testing.T) {
 
 	compRule := "as expr, with 1..2 variables bound to computed values whose body is a generated expression (no default-sides dice: they crash inside a computed body, a C01 matter), either stored through the API or defined in the program itself by a leading `&name = body;` statement (body spans are rebased by fixCodeByOffset); oracle: value[name=<nested text>=value] where the nested text is the body with its rolls replaced (aligned against the body source), re-evaluates to the value, plus the whole expr oracle for the rest; non-trivial = a computed variable whose body has a dice term is read next to another term; distinct by (source, seed, variables)"
 	run.Check("computed", 12000, 120000, compRule, func(t *rapid.T, s *rt.Section) {
-		c := &Case{Seed: drawSeed(t), Vars: drawVars(t, false)}
+		c := &Case{Seed: drawSeed(t), Vars: drawVars(t, false), Mode: rapid.SampledFrom([]string{"", "", "", "", "min", "max"}).Draw(t, "mode")}
 		nt := drawComputed(t, c)
 		src, _ := c.source()
 		c.Src = src
@@ -1505,7 +1524,7 @@ func TestProp(t *testing.T) {
 
 	tailRule := "a generated expression (as in expr, one statement) followed by a separator (blank, line break, ';' or nothing) and free text: words, CJK text, punctuation, brackets, quotes, operators, keywords, or a second expression cut at a random byte and optionally opened by [ { ( `{ ' x( x[ — the way a chat command carries a reason after the dice; only what the VM reports as consumed is judged: GetDetailText never fails, is idempotent and harmless, the text is the consumed source with every reported span range replaced by value[annotation], the value is the span's Ret, and (when the consumed part is arithmetic) the de-annotated text re-evaluates to Ret; non-trivial = at least one dice term and a non-empty unconsumed rest; distinct by (source, seed)"
 	run.Check("tail", 24000, 240000, tailRule, func(t *rapid.T, s *rt.Section) {
-		c := &Case{Seed: drawSeed(t), Vars: drawVars(t, false)}
+		c := &Case{Seed: drawSeed(t), Vars: drawVars(t, false), Mode: rapid.SampledFrom([]string{"", "", "", "", "min", "max"}).Draw(t, "mode")}
 		g := newGen(t, c.Vars)
 		g.avoid = s.Avoid
 		g.budget = rapid.IntRange(1, 5).Draw(t, "budget")
